@@ -741,6 +741,20 @@ func c09(r *core.Run) {
 					r.OKTrivial("S6", fn, "path->"+name, p.InstrPos(x), "merged / measured")
 					continue
 				}
+				// a helper of the package that itself only merges / measures / compares the value it is
+				// handed (e.g. a panic-message builder calling mergePattern)
+				if cal := x.Common().StaticCallee(); cal != nil && len(cal.Blocks) > 0 && cal.Pkg == ac.Fn.Pkg {
+					okAll := true
+					for i, a := range x.Common().Args {
+						if a == v && (i >= len(cal.Params) || !onlyMergedOrMeasured(cal.Params[i], 0)) {
+							okAll = false
+						}
+					}
+					if okAll {
+						r.OKTrivial("S6", fn, "path->"+name, p.InstrPos(x), "handed to a helper that only merges, measures or compares it")
+						continue
+					}
+				}
 				r.Check(nonEmpty, "S6", fn, "path->call:"+name, p.InstrPos(x), "used under a non-empty test", "possibly empty service path passed to "+name+" without a non-empty test")
 			case *ssa.BinOp:
 				if x.Op == token.ADD {
@@ -1237,4 +1251,39 @@ func c09ErrorsTested(r *core.Run, rule string, sub *ssa.Function) {
 			r.Check(ok, rule, core.FuncName(f), "pending-error-returned", p.InstrPos(ret), "the last subscription's error is what the function returns", "the function can return without having tested or returned the error of its last subscription")
 		}
 	}
+}
+
+// onlyMergedOrMeasured: every use of v is an argument of mergePattern or len,
+// a comparison, or an argument of a package function for whose parameter the
+// same holds. A concatenation or any other use is not.
+func onlyMergedOrMeasured(v ssa.Value, depth int) bool {
+	if depth > 3 || v.Referrers() == nil {
+		return depth <= 3
+	}
+	for _, rf := range *v.Referrers() {
+		switch x := rf.(type) {
+		case *ssa.DebugRef:
+		case *ssa.BinOp:
+			if x.Op != token.EQL && x.Op != token.NEQ {
+				return false
+			}
+		case *ssa.Call:
+			name := core.CalleeName(x)
+			if strings.HasSuffix(name, "mergePattern") || name == "builtin:len" {
+				continue
+			}
+			cal := x.Common().StaticCallee()
+			if cal == nil || len(cal.Blocks) == 0 {
+				return false
+			}
+			for i, a := range x.Common().Args {
+				if a == v && (i >= len(cal.Params) || !onlyMergedOrMeasured(cal.Params[i], depth+1)) {
+					return false
+				}
+			}
+		default:
+			return false
+		}
+	}
+	return true
 }
